@@ -317,4 +317,24 @@ add("C31", "c_session",
     note="Power-loss model: data written after the last fsync of a file may be lost entirely or partly; renames are durable. Directory-entry durability is not modelled (either outcome is acceptable to the oracle).",
     assumptions=["strace is available", "a SIGKILLed process leaves page-cache contents intact (process-crash model)"])
 
-NOT_CLAIMED = {}
+
+add("C29", "c_client",
+    [T("TestC29", 3000, 30000, env=CONN)],
+    pre=["TestC29Regression", "TestC29Known"],
+    level="fault_enumeration",
+    rule="a real telegram.Client (restored session, public API, dcs.Plain resolver over pipes) in a synctest bubble against harness peers that answer initConnection/getConfig and pings; 1..3 marked invocations, each with a first-sight plan answer / kill before ack / ack then kill / result then kill / hold (acked) / hold unacked; optional kill of the idle connection first (kill before send); ending: reconnect and wait 2 virtual minutes, or close the client at +0/1 ms/100 ms/3 s/20 s (replacement connections refused) and issue one more invocation. non-trivial = a kill lands after the frame was read by the peer; distinct by scenario. When the known finding is listed, at most one killing plan per case (issued last) and no burst of first writes after an idle kill (counted as excluded)",
+    technique="fault-injection PBT on virtual time (rapid + testing/synctest) with reference MTProto peers (pbt/peer.go); server-side request log as oracle",
+    text="Per request: killed before ack => re-sent on the replacement connection and answered; acknowledged before the kill => never sent on a later connection and Invoke returns an error; no request answered twice; after close every pending and new invocation returns within 1 s of virtual time.",
+    note="One listed known finding (requests whose transport write fails on a dying connection are failed, not re-sent).",
+    assumptions=["each transport frame written by the client is read completely by the peer before the peer acts"])
+add("C30", "c_client",
+    [T("TestC30", 20000, 200000), T("TestC30Load", 2000, 20000, env=CONN)],
+    rule="(a) histories of session notifications through the build-tagged wrappers of onSession/onCDNSession: primary (for the current primary DC), non-primary DCs, CDN, interleaved with primary-DC changes (session.Migrate), PFS on/off; storage records every save; (b) stored sessions with intact / bit-flipped / truncated / extended key bytes and key ids, zeroed or foreign ids, loaded by Client.Run with a dialer that counts calls. non-trivial = a non-primary or CDN notification between two primary ones (a) / a corrupted session (b); distinct by history / mutation",
+    technique="stateful PBT (rapid) with a set-of-legitimate-notifications model; corruption-based PBT for loading",
+    text="After every step the stored (DC, key, salt) equals a notification delivered for the DC that was primary when it was delivered (permanent key under PFS); non-primary and CDN notifications never rewrite it; Run fails with the corrupted-key error before any dial whenever SHA1(key)[12:20] != id, and an intact session leads to a dial.",
+    note="Notifications with this_dc = 0 (not sent by an honest server) are not generated.")
+
+NOT_CLAIMED = {
+ "C21": "check being built in this session (reflection-driven generator over ~5000 constructors plus child-process deep-nesting probes); not registered until it runs clean",
+ "C22": "check being built in this session together with C21; not registered until it runs clean",
+}
